@@ -125,6 +125,9 @@ PROPS["C07"] = {
                  "params": {"CIs": "{5}", "Outcomes": '{"ok", "http5xx"}', "Ticks": "{7, 61}", "ReachLen": 18, "SufLen": 0}},
                 {"module": "HealthSchedGen", "cfg": "HealthSched_gen.cfg",
                  "params": {"CIs": "{1}", "Outcomes": '{"ok", "http4xx"}', "Ticks": "{7}", "ReachLen": 20, "SufLen": 1}},
+                # a check_interval above the 60 s cap: a failing endpoint is probed again within the cap from the first failure on
+                {"module": "HealthSchedGen", "cfg": "HealthSched_gen.cfg",
+                 "params": {"CIs": "{120}", "Outcomes": '{"ok", "http5xx"}', "Ticks": "{61}", "ReachLen": 14, "SufLen": 0}},
                 {"module": "HealthSchedGen", "cfg": "HealthSched_sim.cfg", "simulate": {"num": 120, "depth": 30},
                  "params": {"CIs": "{1, 5, 20}", "Outcomes": _ALLOUT, "Ticks": "{7, 31, 61}", "ReachLen": 24, "SufLen": 0}},
             ]},
